@@ -373,6 +373,47 @@ theorem find_sub (r : Rx) : ∀ (s m : Bytes), find r s = some m → ∃ p q, s 
     · obtain ⟨p, q, e⟩ := find_sub r s m h
       exact ⟨x :: p, q, by simp [e]⟩
 
+theorem findFrom_sub (g : Bool) (r : Rx) : ∀ (s : Bytes) (pd : Bool) (m : Bytes), findFrom g r pd s = some m → ∃ p q, s = p ++ m ++ q
+  | [], pd, m, h => by
+    simp only [findFrom] at h
+    split at h
+    · cases h
+    · simp only [matchAt, Option.map_eq_some_iff] at h
+      obtain ⟨_, _, hm⟩ := h
+      exact ⟨[], [], by simp [← hm]⟩
+  | x :: s, pd, m, h => by
+    simp only [findFrom] at h
+    split at h
+    · rename_i m' hm
+      cases h
+      split at hm
+      · cases hm
+      · simp only [matchAt, Option.map_eq_some_iff] at hm
+        obtain ⟨rem, _, hm⟩ := hm
+        exact ⟨[], (x :: s).drop ((x :: s).length - rem.length), by rw [← hm]; simp⟩
+    · obtain ⟨p, q, e⟩ := findFrom_sub g r s _ m h
+      exact ⟨x :: p, q, by simp [e]⟩
+
+/-- the guard only removes candidates: where the plain search finds nothing, the guarded one finds nothing -/
+theorem findFrom_none_of_find (g : Bool) (r : Rx) : ∀ (s : Bytes) (pd : Bool), find r s = none → findFrom g r pd s = none
+  | [], pd, h => by
+    simp only [find] at h
+    simp only [findFrom, h]; split <;> rfl
+  | x :: s, pd, h => by
+    simp only [find] at h
+    split at h
+    · cases h
+    · rename_i hm
+      simp only [findFrom, hm]
+      have := findFrom_none_of_find g r s (decide (48 ≤ x) && decide (x ≤ 57)) h
+      have e : (if (g && pd) = true then (none : Option Bytes) else none) = none := by split <;> rfl
+      rw [e]; exact this
+
+theorem findG_of_matchAt {g : Bool} {r : Rx} {s m : Bytes} (h : matchAt r s = some m) : findG g r s = some m := by
+  cases s with
+  | nil => simp [findG, findFrom, h]
+  | cons x t => simp [findG, findFrom, h]
+
 theorem SD.infix {p m q : Bytes} (h : SD (p ++ m ++ q)) : SD m := by
   rw [List.append_assoc] at h
   exact SD.prefix (SD.suffix h).1
@@ -403,11 +444,12 @@ theorem formatParse_err {adj : Adjust} {cf : CFormat} {now : Now} (h : fmtReject
     simp only [hrx]
     rcases Bool.or_eq_true _ _ |>.mp h with h | h
     · have : reach rx .S = [] := by simpa using h
-      rw [find_none_of_reach this hs]
-    · cases hf : find rx s with
+      simp only [findG]
+      rw [findFrom_none_of_find _ _ _ _ (find_none_of_reach this hs)]
+    · cases hf : findG cf.guard rx s with
       | none => rfl
       | some sub =>
-        obtain ⟨p, q, e⟩ := find_sub rx s sub hf
+        obtain ⟨p, q, e⟩ := findFrom_sub _ rx s _ sub hf
         have hsub : SD sub := by rw [e] at hs; exact SD.infix hs
         simp only [parseLayout_err_of_digitsRejected h hsub]
 
